@@ -21,6 +21,10 @@ CHECKS = {
    text="A parameter grid (1..300 live variables x requested-id patterns incl. adjacent runs, 0/255 and duplicates x DynamicScratchVar views x main/subroutine placement x option settings) is enumerated completely; every variable receives a distinct marker and is read back. TLC runs each compiled text on spec/AVM.tla against the cell semantics of spec/PyTealSem.tla (read-back, index(), DynamicScratchVar) and compares all option settings incl. final user-numbered slots (spec/Refine.tla); TLC judges compile outcomes against the slot-limit model of spec/Accepts.tla (spec/Compile.tla).",
    note="frame-local ABI storage is covered by the ABI checks; the 256 limit is judged on unoptimised compilations only (the optimiser may legitimately remove a variable)",
    tech="TLA+ refinement + outcome validation (TLC): exhaustive parameter grid of many-variable programs executed on the AVM spec vs cell semantics; slot-limit model"),
+ "C12": dict(cat="model_checking", ref="5 C12",
+   text="Programs loading constant multisets (structured families, frequency ladders, every spelling of one byte value, enums, templates, addresses, selectors, >255 distinct repeated constants, seeded random multisets) are compiled with assembleConstants off/on at versions 3..10. TLC (spec/Refine.tla) checks site by site that each constant-load instruction of the assembled text - block indices resolved through intcblock/bytecblock - pushes the value of the pseudo-op text, that the remaining instruction streams are identical, and runs both texts on spec/AVM.tla against the source meaning (constants are logged).",
+   note="template placeholders get one deterministic stand-in value per name; selectors/addresses are decoded by the harness tokenizer",
+   tech="TLA+ validation (TLC): static constant-site equivalence of assembled vs pseudo-op program + differential AVM execution"),
  "C16": dict(cat="model_checking", ref="5 C16",
    text="All 35 factor-count combinations of WideRatio are replayed into PyTeal; TLC runs the emitted TEAL on spec/AVM.tla against the big-number meaning of WideRatio in spec/PyTealSem.tla: on a scaled 4-bit-word machine over every factor tuple (small counts) and on the 64-bit machine over boundary values. Exact result or failure, compared by TLC per (program, context).",
    note="trusts BigNat.tla (self-tested against Python integers at setup), the mulw/divmodw/cover/uncover semantics of AVM.tla, soundness of the scaled machine for width-generic code",
